@@ -86,6 +86,16 @@ class PartHooks(SliceHooks):
         return None
 
 
+
+def soften(probs, und):
+    """Findings that speak about a symbol standing for lost precision and carry no witness become undecided."""
+    from .common import abstract_atoms
+    soft = [p for p in probs if abstract_atoms(p) and 'witness' not in p]
+    if not soft:
+        return probs, und
+    return [p for p in probs if p not in soft], list(und) + ['%s (over an abstracted value: not a witness)' % p[:200] for p in soft[:2]]
+
+
 def find(m, F, dem):
     for name in F.lib:
         f = m.func(name)
@@ -251,7 +261,8 @@ def splits(run, m, F, E, L):
             und.append('no searching iteration explored')
         for rule, probs, okmsg in (('R09.1', p1, 'needle length >= 1 at every search'), ('R09.2', p2, 'resume at match + separator length'),
                                    ('R09.4', p4, 'pieces [cursor,match), one decrement per piece, final piece to the end')):
-            run.ob(rule, short(f.dem), False if probs else (None if und else True), probs[0] if probs else (und[0] if und else okmsg), disc=form, loc=fn_loc(f))
+            probs, und2 = soften(probs, und)
+            run.ob(rule, short(f.dem), False if probs else (None if und2 else True), probs[0] if probs else (und2[0] if und2 else okmsg), disc=form, loc=fn_loc(f))
     return n
 
 
@@ -381,7 +392,8 @@ def replace(run, m, F, E, L):
         und.append('sizing scan not explored')
     for rule, probs, okmsg in (('R09.1', p1, 'pattern length >= 1 at every search'), ('R09.2', p2, 'both scans resume at match + |from|'),
                                ('R09.3', p3, 'sizing adds |to|-|from|; copying copies gap + replacement; same search in both scans')):
-        run.ob(rule, short(f.dem), False if probs else (None if und else True), probs[0] if probs else (und[0] if und else okmsg), disc='replace', loc=fn_loc(f))
+        probs, und2 = soften(probs, und)
+        run.ob(rule, short(f.dem), False if probs else (None if und2 else True), probs[0] if probs else (und2[0] if und2 else okmsg), disc='replace', loc=fn_loc(f))
     # the other replace overloads construct strings from their arguments and forward to the core
     n = 1
     for name in F.lib:
@@ -436,6 +448,7 @@ def tokenize(run, m, F, E, L):
         und.append('no piece emitted on any path')
     if not any(e[0] == 'search' for o in outs for e in o.st.events):
         und.append('the delimiter test is not find_cs(delims, strlen(delims), unit): membership of a unit in the set is not decided')
+    probs, und = soften(probs, und)
     run.ob('R09.5', short(f.dem), False if probs else (None if und else True), probs[0] if probs else (und[0] if und else
            'delimiters tested with find_cs on the set; pieces are non-empty ranges of the string; walks stay inside it'), loc=fn_loc(f))
     return 1
